@@ -2,9 +2,11 @@
 import warnings
 
 OPS = {'o1': dict(name='A', eqv=1, k=2, x0=10), 'o2': dict(name='A', eqv=2, k=3, x0=20), 'o3': dict(name='B', eqv=1, k=5, x0=30)}
-NT_OP = {'t1': 'o1', 't2': 'o2', 't3': 'o3', 't4': 'o1'}
-NT_VAR = {'t1': {}, 't2': {}, 't3': {'k': 7.0}, 't4': {'x': 15.0}}
-CIRC_NODES = {'c1': [('a', 't1'), ('b', 't1'), ('c', 't4')], 'c2': [('a', 't2')], 'c3': [('a', 't3'), ('b', 't1')]}
+NT_OP = {'t1': 'o1', 't2': 'o2', 't3': 'o3', 't4': 'o1', 't6': 'o2'}
+NT_VAR = {'t1': {}, 't2': {}, 't3': {'k': 7.0}, 't4': {'x': 15.0}, 't6': {'k': 6.0}}
+CIRC_NODES = {'c1': [('a', 't1'), ('b', 't1'), ('c', 't4')], 'c2': [('a', 't2'), ('b', 't6')], 'c3': [('a', 't3'), ('b', 't1')]}
+EDGE_GAIN = {'c1': 3, 'c2': 1, 'c3': 6, 'cy': 1}      # edge templates of c1 / c3: operators named 'E' with different gains
+INP_VAL = {'c1': 7.0, 'c2': 11.0, 'c3': 13.0, 'cy': 17.0}
 CIRC_EDGES = {'c1': [(1, 2, 4.0), (3, 1, 6.0)], 'c2': [], 'c3': [(1, 2, 8.0)]}
 VAR = {'k': 'k', 'x0': 'x'}
 # the circuit "cy" of Api.tla lives in a YAML file (operator Y: x' = -2*k*x + u, k = 4, x(0) = 50)
@@ -51,8 +53,11 @@ class Universe:
             if oid == 'o4':
                 continue            # defined in the YAML file only
             eq = "x' = -k*x + u" if o['eqv'] == 1 else "x' = -2*k*x + u"
+            kdecl = float(o['k'])
+            if oid == 'o2':      # the same constant, declared in the explicit dictionary form
+                kdecl = dict(vtype='constant', dtype='float', shape=(1,), value=float(o['k']))
             self.ops[oid] = OperatorTemplate(o['name'], equations=[eq],
-                                             variables={'x': f"output({float(o['x0'])})", 'k': float(o['k']), 'u': 'input(0.0)'})
+                                             variables={'x': f"output({float(o['x0'])})", 'k': kdecl, 'u': 'input(0.0)'})
         self.nts = {}
         for t, oid in NT_OP.items():
             if t == 't5':
@@ -69,9 +74,12 @@ class Universe:
                 continue
             nd = {n: self.nts[t] for n, t in nodes}
             ed = []
+            from pyrates import EdgeTemplate
+            etmp = EdgeTemplate('et_' + c, operators=[OperatorTemplate('E', equations=[f"m_out = {float(EDGE_GAIN[c])}*m_in"],
+                                                                        variables={'m_out': 'output(0.0)', 'm_in': 'input(0.0)'})])
             for s, t, w in CIRC_EDGES[c]:
                 sn, tn = nodes[s - 1], nodes[t - 1]
-                ed.append((f"{sn[0]}/{OPS[NT_OP[sn[1]]]['name']}/x", f"{tn[0]}/{OPS[NT_OP[tn[1]]]['name']}/u", None, {'weight': w}))
+                ed.append((f"{sn[0]}/{OPS[NT_OP[sn[1]]]['name']}/x", f"{tn[0]}/{OPS[NT_OP[tn[1]]]['name']}/u", etmp, {'weight': w}))
             self.circs[c] = CircuitTemplate(c, nodes=nd, edges=ed)
         self.handles = []
 
@@ -84,11 +92,11 @@ class Universe:
         import numpy as np
         y0 = np.asarray(args[1], dtype='float64').ravel().copy()
         n = len(y0)
+        const = np.asarray(func(0, np.zeros(n), *args[2:]), dtype='float64').ravel()[:n].copy()
         A = np.zeros((n, n))
         for j in range(n):
             e = np.zeros(n); e[j] = 1.0
-            A[:, j] = np.asarray(func(0, e, *args[2:]), dtype='float64').ravel()[:n]
-        const = np.asarray(func(0, np.zeros(n), *args[2:]), dtype='float64').ravel()[:n]
+            A[:, j] = np.asarray(func(0, e, *args[2:]), dtype='float64').ravel()[:n] - const
         units = []
         for i in range(n):
             inw = sorted((float(y0[j]), float(A[j, j]), float(A[i, j])) for j in range(n) if j != i and A[i, j] != 0.0)
@@ -102,7 +110,7 @@ class Universe:
         for u in units:
             inw = sorted((float(units[e['s'] - 1]['x0']), float(-units[e['s'] - 1]['eqv'] * units[e['s'] - 1]['k']), float(e['w']))
                          for e in (u.get('inw') or []) if e['s'] != 0)
-            out.append((float(u['x0']), float(-u['eqv'] * u['k']), tuple(inw), 0.0))
+            out.append((float(u['x0']), float(-u['eqv'] * u['k']), tuple(inw), float(u.get('ext', 0))))
         return sorted(out)
 
     def var_path(self, call):
@@ -135,6 +143,9 @@ class Universe:
                 kw['node_values'] = {self.var_path(call): self.override_value(call, float(call['val']))}
             if call.get('dec'):
                 kw['decorator'] = negate
+            if call.get('inp'):
+                import numpy as np
+                kw['inputs'] = {f"{CIRC_NODES[call['c']][0][0]}/{self.opname(call['c'], 1)}/u": np.full(8, INP_VAL[call['c']])}
             func, args, names, svm = c.get_run_func('vf', 1e-3, vectorize=call['vec'], clear=call['clr'], in_place=False,
                                                     verbose=False, float_precision='float64', **kw)
             obs = self.observe(func, args)
